@@ -261,6 +261,8 @@ def do_replay(prop, cfg, path, work, log):
         print(json.dumps(payload["broken"], indent=1))
         print("replay: this file names proof obligations / ties that no longer check; re-run ./check", prop)
         return 1
+    if cfg.get("replay"):   # property-specific replayer, for checks that do not fit the line protocol (see `custom`)
+        return cfg["replay"](prop, payload, path, work, log)
     with core.Lock():
         core.regen(log); core.lake_build(["zmodel"], log)
         _, _, HBIN[0] = core.build_harness(log, cfg.get("components"), prop)
